@@ -154,6 +154,7 @@ func (h *NtfnsHandler) Start() error {
 }
 
 func (h *NtfnsHandler) Stop() {
+	verifGate(h, "stop.enter")
 	close(h.quit)
 	h.quitWg.Wait()
 	h.walletMgr.CloseDB()
@@ -166,13 +167,16 @@ func handle(h *NtfnsHandler) {
 	logging.CPrint(logging.INFO, "NtfnsHandler started", logging.LogFormat{})
 
 	for {
+		verifGate(h, "handle.top")
 		select {
 		case <-h.quit:
 			logging.CPrint(logging.INFO, "NtfnsHandler stopped", logging.LogFormat{})
 			return
 
 		case <-h.sigSuspend:
+			verifGate(h, "handle.suspended")
 			<-h.sigResume
+			verifGate(h, "handle.resumed")
 
 		case block := <-h.queueBlock:
 			err := h.processConnectedBlock(block)
@@ -785,6 +789,7 @@ func worker(h *NtfnsHandler) {
 	})
 
 	for {
+		verifGate(h, "worker.top")
 		select {
 		case <-h.quit:
 			logging.CPrint(logging.INFO, "NtfnsHandler worker stopped")
@@ -1022,6 +1027,7 @@ func (h *NtfnsHandler) asyncRemove(walletId string) error {
 		case <-h.quit:
 			return ErrTaskAbort
 		default:
+			verifGate(h, "remove.round")
 			h.suspend(true, "[asyncRemove-2] deleting credits, keystore", logging.LogFormat{"walletId": walletId})
 			finish := false
 			var removedTx []*wire.Hash
@@ -1225,6 +1231,7 @@ func (h *NtfnsHandler) OnTransactionReceived(tx *wire.MsgTx) error {
 }
 
 func (h *NtfnsHandler) suspend(log bool, msg string, fields logging.LogFormat) {
+	verifGate(h, "worker.suspend")
 	h.sigSuspend <- struct{}{}
 	if log {
 		logging.VPrint(logging.INFO, msg, fields)
@@ -1232,6 +1239,7 @@ func (h *NtfnsHandler) suspend(log bool, msg string, fields logging.LogFormat) {
 }
 
 func (h *NtfnsHandler) resume(log bool, msg string, fields logging.LogFormat) {
+	verifGate(h, "worker.resume")
 	h.sigResume <- struct{}{}
 	if log {
 		logging.VPrint(logging.INFO, msg, fields)
